@@ -112,6 +112,12 @@ def check_method(chk, db, fn, roles, kind, limit_err, R):
                     g_why.append('path [%s] %s' % (p.describe()[:160],
                                  'uses the wrapping form pos + need > limit' if g == 'unsafe' else
                                  'is not dominated by need <= limit - pos (need = %r)' % need))
+        if not touches and not padding and isinstance(p.ret, StatusVal) and p.ret.kind == 'err':
+            from ..rwrules import spurious_refusal
+            w = spurious_refusal(p, need, roles)
+            if w:
+                e_ok = False
+                e_why.append('path [%s] refuses a request that fits (%s)' % (p.describe()[:100], ', '.join('%s=%s' % kv for kv in sorted(w.items()))))
         if not touches:
             if not (isinstance(p.ret, StatusVal) and p.ret.kind == 'err'):
                 # a path that does nothing and reports success would let the caller run past the limit
